@@ -35,7 +35,7 @@ THEOREMS = [
     "normal_along_winding", "vol_eq_normal_flux_centred", "vol_eq_normal_flux", "normal_translate", "normal_rotate",
     "cov_follows", "longest_axis_follows_partial",
     "cov_positive_semidefinite", "cov_eigenvalues_nonneg", "selected_column_is_top", "selected_column_sorted", "selection_max_or_tie",
-    "longest_axis_follows", "boxCloud_eigOut",
+    "longest_axis_follows", "boxCloud_eigOut", "eigOut_of_orthonormal", "longest_axis_follows_orthonormal",
     "rotation_matrix_is_rot", "reflection_matrix_is_refl", "closed_antisym_sum_zero",
 ]
 GEN = ["Geometry", "GateConsts"]      # GateConsts: which tests initialize_cell_properties(true) contains (hypotheses of orient_consistent)
@@ -522,7 +522,7 @@ def run(ctx):
         "trusted_base": vlib.TRUSTED_COMMON + [
             "std::sqrt enters the theorems through the hypothesis SqrtSpec (non-negative root of non-negative numbers)",
             "the enclosed volume of a closed oriented triangulated surface is DEFINED as (1/6)*sum det(p1,p2,p3) (divergence theorem not formalised)",
-            "gte::SymmetricEigensolver3x3 is opaque (hypothesis EigOut of longest_axis_follows / selected_column_is_top: unit eigenvectors with their eigenvalues, none missing; checked at run time by the eigen-residual of the oracle); the selection of the returned column is NOT: it is Gen.Geometry.axisColumn, regenerated from the if-chain, proved and compared with the real function (column_selection_tie)",
+            "gte::SymmetricEigensolver3x3 is opaque (hypothesis EigSolverSpec of longest_axis_follows_orthonormal: three orthonormal eigenvectors with their eigenvalues — that no eigenvalue is missing is PROVED from it, eigOut_of_orthonormal; checked at run time by the eigen-residual of the oracle); the selection of the returned column is NOT: it is Gen.Geometry.axisColumn, regenerated from the if-chain, proved and compared with the real function (column_selection_tie)",
         ],
         "theorems": {k: v for k, v in proof["axioms"].items()},
         "proof_failures": proof["failures"], "translator": gen,
@@ -552,7 +552,8 @@ def selection_tie(V, exe, drv, cases, lines, impl, model):
     st = {"compared": 0, "agree": 0, "disagree": 0, "skipped_small_gap": 0, "column_histogram": {}, "ascending_nonneg": 0, "not_ascending_nonneg": 0}
     if drv is None or model is None:
         return st
-    idx, req = [], []
+    idx, req, reqs_of = [], [], {}
+    unhex_list = lambda l: list(l)
     for i, c in enumerate(cases):
         if i >= len(impl) or i >= len(model):
             break
@@ -560,6 +561,7 @@ def selection_tie(V, exe, drv, cases, lines, impl, model):
         if o["status"] != "ok" or m["status"] != "ok":
             continue
         idx.append((i, o))
+        reqs_of[i] = list(m["extra"])
         req.append("eig " + " ".join(fhex(x) for x in m["extra"]))
     if not req:
         return st
@@ -596,6 +598,24 @@ def selection_tie(V, exe, drv, cases, lines, impl, model):
             st["ascending_nonneg"] += 1
         else:
             st["not_ascending_nonneg"] += 1
+        # the hypothesis EigSolverSpec of longest_axis_follows_orthonormal, evaluated on this output of the real solver
+        # (m = the covariance matrix the request carried): columns orthonormal, C col_j = E_j col_j
+        cm = unhex_list(reqs_of[i])
+        Cm = [[cm[0], cm[1], cm[2]], [cm[1], cm[3], cm[4]], [cm[2], cm[4], cm[5]]]
+        cols3 = [e[3 + 3 * j:6 + 3 * j] for j in range(3)]
+        orth = max(abs(sum(cols3[a][t] * cols3[b][t] for t in range(3)) - (1.0 if a == b else 0.0)) for a in range(3) for b in range(3))
+        resid = max(abs(sum(Cm[r][t] * cols3[j][t] for t in range(3)) - ev[j] * cols3[j][r]) for j in range(3) for r in range(3))
+        st["worst_orthonormality_defect"] = max(st.get("worst_orthonormality_defect", 0.0), orth)
+        st["worst_eigen_residual_over_lmax"] = max(st.get("worst_eigen_residual_over_lmax", 0.0), resid / lmax)
+        if orth <= 1e-9 and resid <= 1e-7 * lmax:
+            st["eig_solver_spec_held"] = st.get("eig_solver_spec_held", 0) + 1
+        else:
+            st["eig_solver_spec_failed"] = st.get("eig_solver_spec_failed", 0) + 1
+            if st["eig_solver_spec_failed"] <= 2:
+                V.fail_input("mat33::eigen_decomposition returned columns that are not orthonormal eigenvectors of the covariance matrix "
+                             "(orthonormality defect %.3g, residual %.3g of largest eigenvalue %.3g): the hypothesis EigSolverSpec of "
+                             "longest_axis_follows_orthonormal does not hold for this cell" % (orth, resid, lmax),
+                             {"line": lines[i], "family": cases[i]["family"], "variant": cases[i]["kind"], "covariance": cm, "eigenvalues": ev}, key=None)
         col = e[3 + 3 * k:6 + 3 * k]
         nrm = math.sqrt(sum(x * x for x in col)) or 1.0
         col = [x / nrm for x in col]
